@@ -33,9 +33,47 @@ fn used_extent(data: &[u8]) -> usize {
     frames.last().map(|f| (f.end() + 64).min(data.len())).unwrap_or(data.len().min(256))
 }
 
+/// Overwrite `data[start..end_of_block]` with a gap-free chain of syntactically valid EMPTY
+/// frames (random checksum bytes, length 0, the given frame type); the < 7 trailing bytes of
+/// the block are zeroed (padding).  A reader that verifies checksums rejects every one of
+/// them; one that exempts empty frames walks the chain without ever reporting corruption.
+pub fn empty_frame_chain_to_block_end(data: &mut [u8], start: usize, ftype: u8, rng: &mut Rng) -> usize {
+    let block_end = ((start / BLOCK) + 1) * BLOCK;
+    let end = block_end.min(data.len());
+    let mut o = start;
+    let mut n = 0;
+    while o + HDR <= end {
+        let mut crc = [0u8; 4];
+        rng.fill(&mut crc);
+        data[o..o + 4].copy_from_slice(&crc);
+        data[o + 4] = 0;
+        data[o + 5] = 0;
+        data[o + 6] = ftype;
+        o += HDR;
+        n += 1;
+    }
+    for b in &mut data[o..end] {
+        *b = 0;
+    }
+    n
+}
+
 /// One in-place overwrite (file length unchanged).  Returns its description.
 pub fn inplace_damage(img: &mut Image, frames: &[(String, Frame)], rng: &mut Rng) -> Option<Value> {
-    let kind = rng.below(12);
+    let kind = rng.below(13);
+    if kind == 12 && !frames.is_empty() {
+        // chain of empty frames from a frame start (preferably one at a block start) to the
+        // end of its block
+        let at_block_start: Vec<&(String, Frame)> = frames.iter().filter(|(_, f)| f.off % BLOCK == 0 && f.off > 0).collect();
+        let (name, f) = if !at_block_start.is_empty() && rng.chance(3, 4) { (*rng.pick(&at_block_start)).clone() } else { rng.pick(frames).clone() };
+        let data = img.files.get_mut(&name)?;
+        if f.off + HDR > data.len() {
+            return None;
+        }
+        let ftype = if rng.chance(2, 3) { 3 } else { rng.range(1, 4) as u8 };
+        let n = empty_frame_chain_to_block_end(data, f.off, ftype, rng);
+        return Some(json!({"kind": "empty-frame-chain-to-block-end", "file": name, "from_offset": f.off, "frames_forged": n, "forged_type": ftype}));
+    }
     // aimed variants need a frame
     if kind >= 6 && !frames.is_empty() {
         let (name, f) = rng.pick(frames).clone();
@@ -280,14 +318,42 @@ pub fn structural_damage(img: &mut Image, rng: &mut Rng) -> Option<Value> {
             Some(json!({"kind": "subdirectory-named-like-wal-file", "name": n}))
         }
         9 => {
-            let last = names.iter().filter_map(|x| wal_num(x)).max().unwrap_or(0);
-            let n = wal_name(last.saturating_add(rng.range(1, 3)));
+            let nums: Vec<u64> = names.iter().filter_map(|x| wal_num(x)).collect();
+            let last = nums.iter().max().copied().unwrap_or(0);
+            let first = nums.iter().min().copied().unwrap_or(0);
+            // behind the newest file, before the oldest one, or in the place of a removed file
+            let n = match rng.below(3) {
+                0 => wal_name(last.saturating_add(rng.range(1, 3))),
+                1 if first > 0 => wal_name(first - 1),
+                _ => {
+                    if nums.len() >= 2 {
+                        let victim = wal_name(*rng.pick(&nums));
+                        img.files.remove(&victim);
+                        victim
+                    } else {
+                        wal_name(last.saturating_add(1))
+                    }
+                }
+            };
             if img.files.contains_key(&n) {
                 return None;
             }
-            let target = if rng.chance(1, 2) && !names.is_empty() { rng.pick(&names).clone() } else { "/nonexistent/dangling".to_string() };
-            img.extras.push(Extra::Symlink(n.clone(), target.clone()));
-            Some(json!({"kind": "symlink-named-like-wal-file", "name": n, "target": target}))
+            match rng.below(4) {
+                0 => {
+                    img.extras.push(Extra::Fifo(n.clone()));
+                    Some(json!({"kind": "fifo-named-like-wal-file", "name": n}))
+                }
+                1 => {
+                    // a symlink loop
+                    img.extras.push(Extra::Symlink(n.clone(), n.clone()));
+                    Some(json!({"kind": "symlink-loop-named-like-wal-file", "name": n}))
+                }
+                _ => {
+                    let target = if rng.chance(1, 2) && !names.is_empty() { rng.pick(&names).clone() } else { "/nonexistent/dangling".to_string() };
+                    img.extras.push(Extra::Symlink(n.clone(), target.clone()));
+                    Some(json!({"kind": "symlink-named-like-wal-file", "name": n, "target": target}))
+                }
+            }
         }
         10 => {
             // empty file in front / behind
